@@ -390,6 +390,9 @@ func ruleLockset(c *Ctx, rule, pkg, typ string, guards map[string]string, fns []
 				if !guarded {
 					continue
 				}
+				if _, fresh := fa.X.(*ssa.Alloc); fresh {
+					continue // the object is being constructed and is not shared yet
+				}
 				r, w, e := fieldAccesses(fa)
 				for _, acc := range append(append(append([]ssa.Instruction{}, r...), w...), e...) {
 					k := fmt.Sprintf("%s/%s", funcName(fn), name)
